@@ -410,6 +410,46 @@ fn main() {
 "#,
                 expect: "(true, true, \"[N, S, E]\")\n(true, true, \"[[7], [9]]\")\n(true, true, \"[\\\"p\\\", \\\"q\\\"]\")\n(true, true, \"[true, false]\")\n(true, true, \"['a', 'b']\")\n(true, true, \"[]\")\n",
             },
+            Caller {
+                what: "optional form: a nested array key looked up through a flattened Borrow<[T]> view (no such impl today; one that exists must keep the Borrow contract: Eq, Ord and Hash agree with the key's)",
+                externs: &[],
+                src: r#"
+use std::collections::{BTreeSet, HashSet};
+fn main() {
+    let keys: Vec<GenericArray<GenericArray<u8, U2>, U3>> = (0..64u8).map(|i| arr![arr![i, 1], arr![2, i], arr![i, i]]).collect();
+    let h: HashSet<_> = keys.iter().cloned().collect();
+    let b: BTreeSet<_> = keys.iter().cloned().collect();
+    let (mut fh, mut fb) = (0, 0);
+    for k in &keys {
+        let flat: Vec<u8> = k.iter().flat_map(|r| r.iter().copied()).collect();
+        if h.contains::<[u8]>(&flat[..]) { fh += 1 }
+        if b.contains::<[u8]>(&flat[..]) { fb += 1 }
+    }
+    println!("{} {}", fh, fb);
+}
+"#,
+                expect: "64 64\n",
+            },
+            Caller {
+                what: "optional form: an array key looked up through a native-array Borrow<[T; 3]> view (no such impl today; one that exists must keep the Borrow contract)",
+                externs: &[],
+                src: r#"
+use std::collections::{BTreeSet, HashSet};
+fn main() {
+    let keys: Vec<GenericArray<u8, U3>> = (0..64u8).map(|i| arr![i, 1, i ^ 5]).collect();
+    let h: HashSet<_> = keys.iter().cloned().collect();
+    let b: BTreeSet<_> = keys.iter().cloned().collect();
+    let (mut fh, mut fb) = (0, 0);
+    for k in &keys {
+        let n: [u8; 3] = [k[0], k[1], k[2]];
+        if h.contains::<[u8; 3]>(&n) { fh += 1 }
+        if b.contains::<[u8; 3]>(&n) { fb += 1 }
+    }
+    println!("{} {}", fh, fb);
+}
+"#,
+                expect: "64 64\n",
+            },
         ],
         other => panic!("no caller programs for {}", other),
     }
@@ -418,7 +458,11 @@ fn main() {
 fn main() {
     let a = args();
     let prop = a.extra.iter().find(|x| x.starts_with('C')).cloned().unwrap_or_else(|| "C09".to_string());
-    let cs = callers(&prop);
+    let mut cs = callers(&prop);
+    if a.extra.iter().any(|x| x == "--typing-only") {
+        // the run of another property that borrows these programs for what they say about typing / inference
+        cs.retain(|c| !c.what.starts_with("optional form:"));
+    }
     let p = Probe::new(&format!("gcall-{}", prop));
     note(&format!("rlib {}", p.rlib.display()));
     let results: Mutex<Vec<Option<Result<String, String>>>> = Mutex::new(vec![None; cs.len()]);
@@ -445,6 +489,11 @@ fn main() {
             Ok(out) => {
                 emit_obs(&[0]);
                 emit_oracle(&format!("caller program {} ({}) printed {:?}, expected {:?}", i, c.what, out, c.expect));
+            }
+            // an OPTIONAL form is an impl the crate does not have today: rejected for the missing trait bound = absent
+            Err(e) if c.what.starts_with("optional form:") && e.starts_with("error[E0277]") => {
+                dist("optional-absent");
+                emit_obs(&[2]);
             }
             Err(e) => {
                 emit_obs(&[-1]);
